@@ -2,6 +2,7 @@ import H2T.Props.C06
 import H2T.Props.C17
 import H2T.Props.C20
 import H2T.Lemmas.WrapInv
+import H2T.Lemmas.RenderTotal
 
 /-! # C01 — rendering is total: never panics, never hangs
 
@@ -15,9 +16,14 @@ never decrements a zero (C06); the selector matcher never panics (C20); the CSS 
 construction (C17); the wrap layer keeps `line.len ≤ width`, which rules out the `width − line.len`
 underflows (C02's invariant).  **Not expressible in the model**: stack depth, allocation and running time —
 recursive `Drop`/`Clone` of deep trees, selector recursion and the exponential descendant-combinator
-backtracking are searched for by isolated child-process runs and are known findings.  The remaining
-reachability obligations (tab loop fuel, table frames) are covered by correspondence: the model reports
-`panic`/`hang` as outcome classes and the implementation must agree on every generated case. -/
+backtracking are searched for by isolated child-process runs and are known findings.
+**Whole-run theorems** (section "the whole renderer"): the wrap layer is total in every mode (`text_layer_total`: any
+characters, any white-space mode, any tags, with or without overflow — hard wrap, tab and pending-whitespace loops have
+enough fuel, no `unwrap` of a missing space tag, no underflow), and rendering a **table-free** tree is total for every
+configuration, decorator and width (`render_total_table_free`; the `pre_depth` counter cannot underflow because the
+programs `compile` emits are balanced: `Balance.compile_frame`).  The table frames (column index bounds, the
+"previous line is a rule" expectation of border collapsing) are not yet proved and remain covered by correspondence:
+the model reports `panic`/`hang` as outcome classes and the implementation must agree on every generated case. -/
 
 namespace H2T.C01
 
@@ -134,11 +140,44 @@ theorem add_css_total (css : Css.Inp) :
 theorem no_space_in_line_underflow (b : WB) (hi : b.Inv) : ¬ (b.linelen > b.width) := by
   have := hi.line_fit; omega
 
+/-! ## the whole renderer -/
+
+/-- **the text layer is total**: from any block that satisfies the wrap invariant (every block reachable from
+    `WrappedBlock::new` does), `add_text` with any characters in any white-space mode returns a block or `TooNarrow`,
+    and so does `into_lines` afterwards -/
+theorem text_layer_total (b : WB) (m : WS) (mt wt : Tag) (cs : List Ch) (hi : b.Inv) (hl : b.Live) :
+    Safe (b.addText m mt wt cs) ∧ ∀ b', b.addText m mt wt cs = .ok b' → b'.Inv ∧ b'.Live ∧ Safe b'.finish :=
+  ⟨addText_safe b m mt wt cs hi, fun b' h =>
+    let r := addText_inv' m mt wt cs b b' hi hl h
+    ⟨r.1, r.2.1, finish_safe b' r.1 r.2.1⟩⟩
+
+/-- a new block of any width (0 included), with or without overflow and padding, satisfies the premises -/
+theorem new_block_ok (w : Nat) (pad ov : Bool) :
+    ({ width := w, padBlocks := pad, overflow := ov } : WB).Inv ∧ ({ width := w, padBlocks := pad, overflow := ov } : WB).Live :=
+  ⟨new_inv w pad ov, Or.inr (by simp [TLine.noContent])⟩
+
+/-- **rendering a table-free tree is total**: lines or `TooNarrow`, for every configuration, decorator and width -/
+theorem render_total_table_free (cfg : Cfg) (d : Deco) (w : Nat) (tree : RNode) (h : noTable tree = true) :
+    ∀ e, renderTree cfg d w tree = .error e → e = .tooNarrow :=
+  renderTree_total_noTable cfg d w tree h
+
+/-- in particular the outcome is never a panic or a hang -/
+theorem render_table_free_no_panic_no_hang (cfg : Cfg) (d : Deco) (w : Nat) (tree : RNode) (h : noTable tree = true) :
+    (∀ s, renderTree cfg d w tree ≠ .error (.panic s)) ∧ (∀ s, renderTree cfg d w tree ≠ .error (.hang s)) := by
+  constructor <;> intro s hs <;> have := render_total_table_free cfg d w tree h _ hs <;> simp at this
+
 /-! non-vacuity: the witnesses of the repaired hangs and overflows now have values -/
 example : olMaxNumber 9223372036854775807 2 = 9223372036854775806 ∧ olItemNumber 9223372036854775807 1 = 9223372036854775807 := by decide
 example : (({ width := 0 } : WB).addText .pre [] [] (strCh " a ")).toOption = none := by decide
 example : (match ({ width := 0 } : WB).addText .pre [] [] (strCh " a ") with | .error .tooNarrow => true | _ => false) = true := by decide
 example : ∃ b', ({ width := 3, wslen := 7, spacetag := some [] } : WB).wsLoop 8 = .ok b' :=
   wsLoop_total 8 _ (by decide) (fun _ => rfl) (by decide)
+/-- the document of a repaired hang (`min_wrap_width(0)`, an `ol` whose marker fills the width, `pre` inside) is
+    table-free; at width 4 it is now `TooNarrow`, at width 5 it renders to 10 lines -/
+example :
+    let tree : RNode := .box {} (.ol (-1)) [.box {} .li [.box { ws := some .pre, pre := true } .block [.text {} (strCh " ccc hello \n x   ")]]]
+    noTable tree = true ∧ (match renderTree { minWrap := 0 } Deco.rich 4 tree with | .error .tooNarrow => true | _ => false) = true ∧
+    (renderTree { minWrap := 0 } Deco.rich 5 tree).toOption.map (·.length) = some 10 := by
+  decide +kernel
 
 end H2T.C01
